@@ -116,6 +116,8 @@ ADDUCT_CORPUS = ["+H+", "+2Na+,+H+", "+K+", "-H+", "+Ca2+", "+Cl-", "+e-", "+Foo
 # global rules: with and without a bracketed modification (without one the rule means nothing)
 RULE_CORPUS = ["[Oxidation]@M", "[1]@P,E", "Bogus@P", "@P", "Oxidation@M", "[Oxidation]^2@N-term",
                # targets that are not residue letters (and mean something to a regular-expression engine)
+               # a modification nobody can weigh, on a terminus or on a residue that is there
+               "[Bogus]@C-term", "[Bogus]@N-term", "[Bogus]@M", "[Unimod:99999999]@C-Term", "[Bogus]@n-term,K", "[Oxidation][Bogus]@E",
                "[Formula:C]@(", "[Formula:C]@*", "[Oxidation]@+", "[1]@?", "[Formula:C]@.", "[1]@P|E", "[1]@^", "[1]@$", "[1]@\\"]
 
 
